@@ -4,7 +4,7 @@ import CanvasModel.C19
 
 `checkDash` belongs to properties C05/C15; the C19 model takes it as the field `Ops.checkDash`.
 This file provides the executable instance for the driver.  It is the value-semantics transcription
-used (and tied bit-exactly to the real code) by the C15 model (state of /repo 0981ba9), re-stated over `C19.Arith` so that the
+used (and tied bit-exactly to the real code) by the C15 model (state of /repo 555d813), re-stated over `C19.Arith` so that the
 C19 driver does not depend on another property's files.  No C19 theorem looks inside it.
 -/
 namespace Canvas.C19
@@ -84,7 +84,7 @@ def dashStart (off : α) (d : List α) : Option (Nat × α) :=
     if a.lt off a.zero then some (i, a.neg (a.add (d.foldl a.add a.zero) off))
     else some (i, a.neg off)
 
-/-- Path.checkDash as a function of the path length (`fmod` = math.Mod), as of /repo 0981ba9: the pattern
+/-- Path.checkDash as a function of the path length (`fmod` = math.Mod), as of /repo 555d813: the pattern
 is dropped (solid stroke) when the first dash covers the whole path, the stroke when the first space does -/
 def checkDashImpl (fmod : α → α → α) (off : α) (d : List α) (len : α) : List α × Bool :=
   let (off, d) := dashCanonical a off d
